@@ -85,6 +85,12 @@ def entry_spellings(root, d, fname, cwd):
     rel = os.path.relpath(full, cwd)
     out = [("abs", full), ("rel", rel), ("dotrel", rel if rel.startswith(".") else "./" + rel)]
     out.append(("detour", os.path.join(os.path.dirname(full), "..", os.path.basename(os.path.dirname(full)), fname) if d else os.path.join(root, "a", "..", fname)))
+    child = {"": "a", "a": "b"}.get(d)
+    if child:
+        # the directory part of the spelling ends in `..`
+        out.append(("updown", os.path.join(root, d, child, "..", fname)))
+        rel_ud = os.path.join(os.path.relpath(os.path.join(root, d, child), cwd), "..", fname)
+        out.append(("updown-rel", rel_ud))
     return out
 
 
@@ -188,7 +194,7 @@ def run(prop: str, tier: str) -> core.Report:
         cov = {
             "evaluations": n + en,
             "distinct_nontrivial": n,
-            "rule": f"{len(items)} import chains (1-3 hops over directories {DIRS}, hop spellings ./ ../ bare a/b detour absolute) x {len(cwds)} working directories x 4 entry-path spellings x chdir-between-parse-and-lookup; decoy leaf.nix in every directory and a mirror tree with other values under the unrelated working directory; + error shapes",
+            "rule": f"{len(items)} import chains (1-3 hops over directories {DIRS}, hop spellings ./ ../ bare a/b detour absolute) x {len(cwds)} working directories x 4-6 entry-path spellings (absolute, relative, ./relative, detour, directory part ending in `..`) x chdir-between-parse-and-lookup; decoy leaf.nix in every directory and a mirror tree with other values under the unrelated working directory; + error shapes",
             "samples": [{"chain": c, "dirs": v[5], "hop_spellings": v[4], "planted": v[3]} for c, v in core.pick_samples(items, 4)],
             "exhaustive": True,
             "chains": len(items),
